@@ -48,9 +48,13 @@ def run_one(spec, repo, props=None):
             s = s.replace(e["find"], e["replace"], e.get("count", 1))
             open(p, "w").write(s)
         results = []
-        for prop in (props or spec.get("properties") or [spec["property"]]):
+        plist = props or spec.get("properties") or ([spec["property"]] if "property" in spec else None)
+        if plist is None:
+            import json as _j
+            plist = [c["property_id"] for c in _j.load(open(os.path.join(VERIF, "MANIFEST.json")))["checks"]]
+        for prop in plist:
             env = dict(os.environ, KRP_REPO=d, KRP_EVIDENCE_DIR=ev)
-            r = subprocess.run([os.path.join(VERIF, "check"), prop], capture_output=True, text=True, env=env)
+            r = subprocess.run([os.path.join(VERIF, "check"), prop, "--tier", "quick"], capture_output=True, text=True, env=env)
             results.append((prop, r.returncode, r.stdout + r.stderr[-2000:]))
         return (spec["id"], "ran", results)
     finally:
@@ -75,6 +79,30 @@ def judge(spec, kind, res):
             if rc != 0:
                 return "alarm", "%s rc=%d\n%s" % (prop, rc, out[-1500:])
         return "silent", ""
+
+
+def run_suite(prop, repo, jobs=8, seed=0):
+    """used by `check --tier thorough`: the property's mutants and every variant"""
+    import random
+    out = {"mutants": {}, "variants": {}}
+    details = []
+    for k in ("mutants", "variants"):
+        specs = []
+        for f in sorted(glob.glob(os.path.join(HERE, k, "*.json"))):
+            for s in json.load(open(f)):
+                if k == "mutants" and s.get("property") != prop:
+                    continue
+                specs.append(s)
+        random.Random(seed).shuffle(specs)
+        props = [prop]
+        with ThreadPoolExecutor(max_workers=jobs) as ex:
+            futs = [(s, ex.submit(run_one, s, repo, props if (k == "variants" or not s.get("properties")) else None)) for s in specs]
+            for s, fu in futs:
+                verdict, detail = judge(s, k, fu.result())
+                out[k].setdefault(verdict, []).append(s["id"])
+                if verdict in ("missed", "alarm", "broken"):
+                    details.append("[%s] %s: %s %s" % (k, s["id"], verdict, str(detail)[-400:]))
+    return out, details
 
 
 def main():
